@@ -6,6 +6,7 @@ package db
 import (
 	"context"
 	"encoding/json"
+	"fmt"
 	"os"
 	"sort"
 	"strings"
@@ -97,6 +98,49 @@ func TestGovcC13Partition(t *testing.T) {
 		{"self reference with independent types: two calls", []string{join(s1, p, q)}, []string{join(q), join(p, s1)}},
 		{"independent types: three calls", []string{join(p, q, s1)}, []string{s1, q, p}},
 		{"circle plus independent type: two calls", []string{join(a, b, p)}, []string{p, join(b, a)}},
+	}
+	// every order of the type definitions inside one SDL gives the same identifiers: two circles joined by a
+	// one-directional relation (in either direction between the circles), and the three-cycle
+	d2 := `type D { name: String c: C }`
+	a2 := `type A { name: String b: B @primary toC: C @primary }`
+	var perms func(xs []string, k int, f func([]string))
+	perms = func(xs []string, k int, f func([]string)) {
+		if k == len(xs) {
+			f(append([]string{}, xs...))
+			return
+		}
+		for i := k; i < len(xs); i++ {
+			xs[k], xs[i] = xs[i], xs[k]
+			perms(xs, k+1, f)
+			xs[k], xs[i] = xs[i], xs[k]
+		}
+	}
+	for _, fam := range []struct {
+		name  string
+		types []string
+	}{
+		{"two circles, relation from the later circle to the earlier one", []string{a, b, c, d}},
+		{"two circles, relation from the earlier circle to the later one", []string{a2, b, c, d2}},
+		{"three-cycle", []string{x, y, z}},
+		{"two doubly linked pairs, two-sided relation from the earlier pair to the later one", []string{
+			`type K { name: String l1: L @primary @relation(name:"r1") l2: L @relation(name:"r2") m: M @primary @relation(name:"r5") }`,
+			`type L { name: String k1: K @relation(name:"r1") k2: K @primary @relation(name:"r2") }`,
+			`type M { name: String n1: N @primary @relation(name:"r3") n2: N @relation(name:"r4") k: K @relation(name:"r5") }`,
+			`type N { name: String m1: M @relation(name:"r3") m2: M @primary @relation(name:"r4") }`}},
+		{"two doubly linked pairs, two-sided relation from the later pair to the earlier one", []string{
+			`type U { name: String v1: V @primary @relation(name:"r1") v2: V @relation(name:"r2") g: G @primary @relation(name:"r5") }`,
+			`type V { name: String u1: U @relation(name:"r1") u2: U @primary @relation(name:"r2") }`,
+			`type G { name: String h1: H @primary @relation(name:"r3") h2: H @relation(name:"r4") u: U @relation(name:"r5") }`,
+			`type H { name: String g1: G @relation(name:"r3") g2: G @primary @relation(name:"r4") }`}},
+	} {
+		n := 0
+		perms(append([]string{}, fam.types...), 0, func(order []string) {
+			n++
+			if n == 1 {
+				return
+			}
+			variants = append(variants, variant{fmt.Sprintf("%s: SDL order %d", fam.name, n), []string{join(fam.types...)}, []string{join(order...)}})
+		})
 	}
 	var out []c13Case
 	for _, v := range variants {
